@@ -14,8 +14,14 @@ Props/C18Reloc.lean — C18-R1 (relocation), statement level.
                          16-bit field moves by `D`.
 (d) `reloc_finish`     : `fixAll`, final symbol table, origin and name for a program all of whose statements
                          are in one of the two classes: same outcome kind, labels move by `D`, EQU unchanged.
+(e) `*_label_plus`, `*_label_minus` (repair batch B2): `label + N`, `label - N` with a SIGNED constant `N` (a
+                         negative EQU counts negatively): membership in the classes in arithmetic terms, the stored
+                         values in closed form, and what happens outside the classes (the 16-bit field moves by `D`
+                         modulo `$10000`).
 -/
 import CoCoVerif.Lemmas.RelocAll
+import CoCoVerif.Lemmas.RelocSigned
+import CoCoVerif.Lemmas.RelocMod
 import CoCoVerif.Props.C18
 
 namespace CoCo.Props
@@ -330,6 +336,281 @@ theorem reloc_symtab_entry {t : SymTab} {A B : Assembly} (h : AsmRel D t A B)
   rw [h.2.1, List.getElem?_zipWith, hj, List.getElem?_eq_getElem hjr]
 
 end whole
+
+/-! ## (e) `label + N`, `label - N` with a SIGNED constant `N` (repair batch B2)
+
+Before B2 the sign of the other operand of a label expression was dropped (`A+N` with `N EQU -2` was `A+2`).  Now
+the constant is `signedK k nn` (`-k` when the number carries a minus sign).  `LabelNum as l r t a k nn`: the operands
+are the label of statement `t` (address `a` in the layout `as`) and that number.  Below, `c` stands for
+`signedK k nn`. -/
+
+section signed
+variable {D : Nat} {as as' : List Stmt} {l r : Value} {t a k : Nat} {nn : Bool} {s : Stmt} {m : Mode}
+
+/-- `label + N` (no PCR) in a 16-bit field is in the class `Moved` when its value `a + c` is in `0 .. $FFFF - D` -/
+theorem moved_label_plus (h : LabelNum as l r t a k nn)
+    (hk : (s.operand.kind == .relative) = false) (hv : s.operand.value = .expr l r '+' m true)
+    (hn : s.pkg.needsRes = false) (hf : FieldWide s)
+    (h0 : 0 ≤ (a : Int) + signedK k nn) (h1 : (a : Int) + signedK k nn + D ≤ 65535) : Moved D as s :=
+  ⟨hk, hn, .inr (by rw [hv]; exact (numExpr_plus_iff h m).mpr (fun _ => ⟨h0, h1⟩)), hf⟩
+
+/-- `label - N` (no PCR) in a 16-bit field is in the class `Moved` when its value `(a - c) mod $10000` is at most
+`$FFFF - D` -/
+theorem moved_label_minus (h : LabelNum as l r t a k nn)
+    (hk : (s.operand.kind == .relative) = false) (hv : s.operand.value = .expr l r '-' m true)
+    (hn : s.pkg.needsRes = false) (hf : FieldWide s)
+    (h1 : ((a : Int) - signedK k nn) % 65536 + D ≤ 65535) : Moved D as s :=
+  ⟨hk, hn, .inr (by rw [hv]; exact (numExpr_minus_iff h m).mpr h1), hf⟩
+
+/-- `label + N,PCR` / `label - N,PCR` (an indexed operand whose offset is the label expression) is in the class
+`Unmoved` under the same arithmetic conditions on the TARGET -/
+theorem unmoved_pcr_label_plus (h : LabelNum as l r t a k nn)
+    (hk : (s.operand.kind == .relative) = false) (hE : s.operand.value.isAddrExpr = false)
+    (hA : s.operand.value.isAddress = false) (hidx : s.isIdx = true)
+    (he : s.pkg.additional = .expr l r '+' m true)
+    (h0 : 0 ≤ (a : Int) + signedK k nn) (h1 : (a : Int) + signedK k nn + D ≤ 65535) : Unmoved D as s :=
+  .inr (.inl ⟨hk, hE, hA, .inr (.inr (.inr ⟨hidx, by
+    rw [he]; exact (numExpr_plus_iff h m).mpr (fun _ => ⟨h0, h1⟩)⟩))⟩)
+
+theorem unmoved_pcr_label_minus (h : LabelNum as l r t a k nn)
+    (hk : (s.operand.kind == .relative) = false) (hE : s.operand.value.isAddrExpr = false)
+    (hA : s.operand.value.isAddress = false) (hidx : s.isIdx = true)
+    (he : s.pkg.additional = .expr l r '-' m true)
+    (h1 : ((a : Int) - signedK k nn) % 65536 + D ≤ 65535) : Unmoved D as s :=
+  .inr (.inl ⟨hk, hE, hA, .inr (.inr (.inr ⟨hidx, by rw [he]; exact (numExpr_minus_iff h m).mpr h1⟩))⟩)
+
+/-- (b, signed `+`) `fix_addresses` on `label + N`, value `z = a + c` in `0 .. $FFFF - D`: the original program
+stores `z`, the relocated one `z + D` -/
+theorem reloc_fixOne_label_plus (hpw : PW (AddrShiftI D) as as') (h : LabelNum as l r t a k nn) (i : Nat) (v : Value)
+    (hk : (s.operand.kind == .relative) = false) (hv : s.operand.value = .expr l r '+' m true)
+    (hn : s.pkg.needsRes = false)
+    (h0 : 0 ≤ (a : Int) + signedK k nn) (h1 : (a : Int) + signedK k nn + D ≤ 65535) :
+    fixOne as i s = .ok (withAdditional s (.numeric ((a : Int) + signedK k nn).toNat (some 4) .extended false)) ∧
+    fixOne as' i (s.setAddress v) =
+      .ok ((withAdditional s (.numeric (((a : Int) + signedK k nn).toNat + D) (some 4) .extended false)).setAddress v) := by
+  refine ⟨fixOne_label_plus h i hk hv hn h0 (by omega), ?_⟩
+  rw [fixOne_setAddress, fixOne_label_plus (h.reloc hpw) i hk hv hn (by omega) (by omega)]
+  have e : (((a + D : Nat) : Int) + signedK k nn).toNat = ((a : Int) + signedK k nn).toNat + D := by omega
+  rw [e]; rfl
+
+/-- (b, signed `-`) `fix_addresses` on `label - N`: the original program stores `z = (a - c) mod $10000`, the
+relocated one `(z + D) mod $10000` (no side condition: the subtraction is computed modulo `$10000`) -/
+theorem reloc_fixOne_label_minus (hpw : PW (AddrShiftI D) as as') (h : LabelNum as l r t a k nn) (i : Nat) (v : Value)
+    (hk : (s.operand.kind == .relative) = false) (hv : s.operand.value = .expr l r '-' m true)
+    (hn : s.pkg.needsRes = false) :
+    fixOne as i s =
+      .ok (withAdditional s (.numeric (((a : Int) - signedK k nn) % 65536).toNat (some 4) .extended false)) ∧
+    fixOne as' i (s.setAddress v) =
+      .ok ((withAdditional s (.numeric (((((a : Int) - signedK k nn) % 65536).toNat + D) % 65536)
+        (some 4) .extended false)).setAddress v) := by
+  refine ⟨fixOne_label_minus h i hk hv hn, ?_⟩
+  rw [fixOne_setAddress, fixOne_label_minus (h.reloc hpw) i hk hv hn]
+  have e : ((((a + D : Nat) : Int) - signedK k nn) % 65536).toNat
+      = ((((a : Int) - signedK k nn) % 65536).toNat + D) % 65536 := by omega
+  rw [e]; rfl
+
+/-- (b, signed `+`, what the model really does) `fix_addresses; fit_operand_width` on `label + N` in a four-digit
+field, in both layouts: the statement is accepted iff the value is in `-$8000 .. $FFFF`, and the field holds the value
+modulo `$10000` — a value below zero is NOT rejected, it is stored in two's complement -/
+theorem reloc_fixFit_label_plus (hpw : PW (AddrShiftI D) as as') (h : LabelNum as l r t a k nn) (i : Nat) (v : Value)
+    (hf : Field4 s)
+    (hk : (s.operand.kind == .relative) = false) (hv : s.operand.value = .expr l r '+' m true)
+    (hn : s.pkg.needsRes = false) :
+    fixFit as i s =
+      (if -32768 ≤ (a : Int) + signedK k nn ∧ (a : Int) + signedK k nn ≤ 65535 then
+        .ok (withAdditional s (.numeric (((a : Int) + signedK k nn) % 65536).toNat (some 4) .extended false))
+      else .diag) ∧
+    fixFit as' i (s.setAddress v) =
+      (if -32768 ≤ (a : Int) + signedK k nn + D ∧ (a : Int) + signedK k nn + D ≤ 65535 then
+        .ok ((withAdditional s (.numeric (((a : Int) + signedK k nn + D) % 65536).toNat (some 4) .extended false)).setAddress v)
+      else .diag) := by
+  refine ⟨fixFit_label_plus h i hf hk hv hn, ?_⟩
+  rw [fixFit_setAddress, fixFit_label_plus (h.reloc hpw) i hf hk hv hn]
+  have e : ((a + D : Nat) : Int) + signedK k nn = (a : Int) + signedK k nn + D := by omega
+  rw [e]
+  split <;> rfl
+
+/-- (b, signed `+`) both layouts accept `label + N` (value in `-$8000 .. $FFFF - D`): the 16-bit field moves by `D`
+MODULO `$10000`.  When the value is not negative this is `+ D` (the class `Moved`); when it is negative and
+`a + c + D` is not, the field wraps around (`$FF80` becomes `$0080` for `D = $100`) -/
+theorem reloc_fixFit_label_plus_mod (hpw : PW (AddrShiftI D) as as') (h : LabelNum as l r t a k nn) (i : Nat) (v : Value)
+    (hf : Field4 s)
+    (hk : (s.operand.kind == .relative) = false) (hv : s.operand.value = .expr l r '+' m true)
+    (hn : s.pkg.needsRes = false)
+    (h0 : -32768 ≤ (a : Int) + signedK k nn) (h1 : (a : Int) + signedK k nn + D ≤ 65535) :
+    ∃ x : Nat, x < 65536 ∧ (x : Int) = ((a : Int) + signedK k nn) % 65536 ∧
+      fixFit as i s = .ok (withAdditional s (.numeric x (some 4) .extended false)) ∧
+      fixFit as' i (s.setAddress v) =
+        .ok ((withAdditional s (.numeric ((x + D) % 65536) (some 4) .extended false)).setAddress v) := by
+  obtain ⟨e1, e2⟩ := reloc_fixFit_label_plus hpw h i v hf hk hv hn
+  rw [if_pos ⟨h0, by omega⟩] at e1
+  rw [if_pos ⟨by omega, h1⟩] at e2
+  have p0 : 0 ≤ ((a : Int) + signedK k nn) % 65536 := Int.emod_nonneg _ (by decide)
+  have p1 : ((a : Int) + signedK k nn) % 65536 < 65536 := Int.emod_lt_of_pos _ (by decide)
+  refine ⟨(((a : Int) + signedK k nn) % 65536).toNat, by omega, by omega, e1, ?_⟩
+  rw [e2]
+  have e : (((a : Int) + signedK k nn + D) % 65536).toNat = ((((a : Int) + signedK k nn) % 65536).toNat + D) % 65536 := by
+    omega
+  rw [e]
+
+/-- (b, signed `-`) `fix_addresses; fit_operand_width` on `label - N` in a four-digit field: always accepted; the
+field moves by `D` modulo `$10000` -/
+theorem reloc_fixFit_label_minus (hpw : PW (AddrShiftI D) as as') (h : LabelNum as l r t a k nn) (i : Nat) (v : Value)
+    (hf : Field4 s)
+    (hk : (s.operand.kind == .relative) = false) (hv : s.operand.value = .expr l r '-' m true)
+    (hn : s.pkg.needsRes = false) :
+    ∃ x : Nat, x < 65536 ∧ (x : Int) = ((a : Int) - signedK k nn) % 65536 ∧
+      fixFit as i s = .ok (withAdditional s (.numeric x (some 4) .extended false)) ∧
+      fixFit as' i (s.setAddress v) =
+        .ok ((withAdditional s (.numeric ((x + D) % 65536) (some 4) .extended false)).setAddress v) := by
+  have p0 : 0 ≤ ((a : Int) - signedK k nn) % 65536 := Int.emod_nonneg _ (by decide)
+  have p1 : ((a : Int) - signedK k nn) % 65536 < 65536 := Int.emod_lt_of_pos _ (by decide)
+  refine ⟨(((a : Int) - signedK k nn) % 65536).toNat, by omega, by omega, fixFit_label_minus h i hf hk hv hn, ?_⟩
+  rw [fixFit_setAddress, fixFit_label_minus (h.reloc hpw) i hf hk hv hn]
+  have e : ((((a + D : Nat) : Int) - signedK k nn) % 65536).toNat
+      = ((((a : Int) - signedK k nn) % 65536).toNat + D) % 65536 := by omega
+  rw [e]; rfl
+
+/-- (c, signed) the emitted bytes of a statement whose four-digit field holds `x` resp. `(x + D) mod $10000` (the
+two theorems above): the code ends with that 16-bit value, big endian; everything before is identical -/
+theorem reloc_bytes_label_mod {x : Nat} (hx : x < 65536) (v : Value) {bs : Bytes}
+    (hb : stmtBytes (withAdditional s (.numeric x (some 4) .extended false)) = some bs) :
+    ∃ pre, bs = pre ++ [x / 256, x % 256] ∧
+      stmtBytes ((withAdditional s (.numeric ((x + D) % 65536) (some 4) .extended false)).setAddress v)
+        = some (pre ++ [(x + D) % 65536 / 256, (x + D) % 65536 % 256]) := by
+  obtain ⟨pre, e, hall⟩ := stmtBytes_field4 hx hb
+  exact ⟨pre, e, by rw [stmtBytes_setAddress]; exact hall _ _ (Nat.mod_lt _ (by decide))⟩
+
+end signed
+
+/-! ## (f) the third class `MovedMod`: `label ± N` with no bound but acceptance; the field moves modulo `$10000` -/
+
+section modulo
+variable {D : Nat} {as as' : List Stmt}
+
+/-- (b, moved modulo), general form -/
+theorem reloc_fixFit_movedMod' (h : PW (AddrShiftI D) as as') {i : Nat} {s s' : Stmt}
+    (he : s' = s.setAddress s'.pkg.address) (hc : MovedMod D as s) :
+    fixFit as' i s' = (fixFit as i s).map (fun t => (t.shiftAdditionalMod D).setAddress s'.pkg.address) := by
+  have : fixFit as' i s' = fixFit as' i (s.setAddress s'.pkg.address) := by rw [← he]
+  rw [this, fixFit_setAddress, fixFit_movedMod h i hc, outcome_map_map]
+
+/-- (b, moved modulo) `label + N`, `label - N` (SIGNED `N`) in a four-digit field: the same outcome of
+`fix_addresses; fit_operand_width`, the stored operand value moved by `D` modulo `$10000` -/
+theorem reloc_fixFit_movedMod (h : PW (RelocOut D) as as') {i : Nat} {s s' : Stmt}
+    (hs : as[i]? = some s) (hs' : as'[i]? = some s') (hc : MovedMod D as s) :
+    fixFit as' i s' = (fixFit as i s).map (fun t => (t.shiftAdditionalMod D).setAddress s'.pkg.address) :=
+  reloc_fixFit_movedMod' (RelocOut.addrShiftI h) (h.2 i s s' hs hs').1 hc
+
+/-- (c, moved modulo), general form: the code ends with a 16-bit big-endian field holding `x` resp.
+`(x + D) mod $10000`; the bytes before that field are identical -/
+theorem reloc_bytes_movedMod' (h : PW (AddrShiftI D) as as') {i : Nat} {s s' t t' : Stmt}
+    (he : s' = s.setAddress s'.pkg.address) (hc : MovedMod D as s)
+    (ht : fixFit as i s = .ok t) (ht' : fixFit as' i s' = .ok t') {bs : Bytes} (hb : stmtBytes t = some bs) :
+    t' = (t.shiftAdditionalMod D).setAddress s'.pkg.address ∧
+    ∃ pre x, t.pkg.additional.int? = some x ∧ x < 65536 ∧ bs = pre ++ [x / 256, x % 256] ∧
+      stmtBytes t' = some (pre ++ [(x + D) % 65536 / 256, (x + D) % 65536 % 256]) := by
+  have hmv := reloc_fixFit_movedMod' h he hc (i := i)
+  rw [ht, ht'] at hmv
+  simp only [Outcome.map_ok, Outcome.ok.injEq] at hmv
+  refine ⟨hmv, ?_⟩
+  obtain ⟨x, hx, e1, _⟩ := fixFit_movedMod_aux h i hc
+  rw [e1] at ht
+  cases ht
+  obtain ⟨pre, e, hall⟩ := stmtBytes_field4 hx hb
+  refine ⟨pre, x, rfl, hx, e, ?_⟩
+  rw [hmv, stmtBytes_setAddress]
+  exact hall _ _ (Nat.mod_lt _ (by decide))
+
+/-- (c, moved modulo) -/
+theorem reloc_bytes_movedMod (h : PW (RelocOut D) as as') {i : Nat} {s s' t t' : Stmt}
+    (hs : as[i]? = some s) (hs' : as'[i]? = some s') (hc : MovedMod D as s)
+    (ht : fixFit as i s = .ok t) (ht' : fixFit as' i s' = .ok t') {bs : Bytes} (hb : stmtBytes t = some bs) :
+    t' = (t.shiftAdditionalMod D).setAddress s'.pkg.address ∧
+    ∃ pre x, t.pkg.additional.int? = some x ∧ x < 65536 ∧ bs = pre ++ [x / 256, x % 256] ∧
+      stmtBytes t' = some (pre ++ [(x + D) % 65536 / 256, (x + D) % 65536 % 256]) :=
+  reloc_bytes_movedMod' (RelocOut.addrShiftI h) (h.2 i s s' hs hs').1 hc ht ht' hb
+
+/-- after `fixAll`, three classes: equal except for the address and — for moved statements — the operand field, moved
+by `D` (`Moved`) or by `D` modulo `$10000` (`MovedMod`) -/
+def FinalRelMod (D : Nat) (t t' : Stmt) : Prop :=
+  (t' = t.setAddress t'.pkg.address ∨ t' = (t.shiftAdditional D).setAddress t'.pkg.address ∨
+    t' = (t.shiftAdditionalMod D).setAddress t'.pkg.address) ∧ AddrShift D t t'
+
+theorem FinalRel.toMod {t t' : Stmt} (h : FinalRel D t t') : FinalRelMod D t t' := by
+  obtain ⟨h1, h2⟩ := h
+  exact ⟨h1.elim .inl (fun h => .inr (.inl h)), h2⟩
+
+/-- `fixAll` on a program all of whose statements are in one of the THREE classes: same outcome kind, and statement
+by statement `FinalRelMod` -/
+theorem reloc_fixAll_mod (h : PW (RelocOut D) as as')
+    (hcov : ∀ (i : Nat) (s : Stmt), as[i]? = some s → Unmoved D as s ∨ Moved D as s ∨ MovedMod D as s) :
+    OutRel (PW (FinalRelMod D)) (fixAll as 0 as) (fixAll as' 0 as') := by
+  refine fixAll_outRel as as' 0 h.1 ?_
+  intro j s s' hs hs'
+  simp only [Nat.zero_add]
+  have hrel := (h.2 j s s' hs hs').2
+  rcases hcov j s hs with hc | hc | hc
+  · refine OutRel.of_eq_map (reloc_fixFit_unmoved h hs hs' hc) ?_
+    intro t ht
+    obtain ⟨v, rfl⟩ := fixFit_keeps ht
+    exact ⟨.inl rfl, rfl, hrel.2⟩
+  · refine OutRel.of_eq_map (reloc_fixFit_moved h hs hs' hc) ?_
+    intro t ht
+    obtain ⟨v, rfl⟩ := fixFit_keeps ht
+    exact ⟨.inr (.inl rfl), rfl, hrel.2⟩
+  · refine OutRel.of_eq_map (reloc_fixFit_movedMod h hs hs' hc) ?_
+    intro t ht
+    obtain ⟨v, rfl⟩ := fixFit_keeps ht
+    exact ⟨.inr (.inr rfl), rfl, hrel.2⟩
+
+theorem FinalRelMod.row_addr {t t' : Stmt} (h : FinalRelMod D t t') :
+    t'.row = t.row ∧ t'.pkg.address = shiftV D t.pkg.address := by
+  obtain ⟨h1, _, hw⟩ := h
+  refine ⟨?_, hw.shiftV⟩
+  rcases h1 with h1 | h1 | h1 <;> rw [h1] <;> rfl
+
+theorem FinalRelMod.row_operand {t t' : Stmt} (h : FinalRelMod D t t') :
+    t'.row = t.row ∧ t'.operand = t.operand := by
+  obtain ⟨h1, _⟩ := h
+  rcases h1 with h1 | h1 | h1 <;> rw [h1] <;> exact ⟨rfl, rfl⟩
+
+/-- as `AsmRel`, statements related by `FinalRelMod` -/
+def AsmRelMod (D : Nat) (t : SymTab) (A B : Assembly) : Prop :=
+  PW (FinalRelMod D) A.stmts B.stmts ∧
+  B.symtab = List.zipWith (fun (kv kw : Str × Value) => (kw.1, if kv.2.isAddress then shiftV D kw.2 else kw.2))
+    t A.symtab ∧
+  B.origin = shiftV D A.origin ∧ B.name = A.name
+
+/-- (d, three classes) `fixAll`, `finalSymTab`, origin and name: identical outcome kind, results related by
+`AsmRelMod` -/
+theorem reloc_finish_mod (h : PW (RelocOut D) as as')
+    (hcov : ∀ (i : Nat) (s : Stmt), as[i]? = some s → Unmoved D as s ∨ Moved D as s ∨ MovedMod D as s) (t : SymTab) :
+    OutRel (AsmRelMod D t) (finish t as) (finish t as') := by
+  have hfix := reloc_fixAll_mod h hcov
+  unfold finish
+  generalize fixAll as 0 as = o at hfix ⊢
+  generalize fixAll as' 0 as' = o' at hfix ⊢
+  cases hfix with
+  | ok hr =>
+    rename_i fs fs'
+    dsimp only
+    have hsh : PW (AddrShift D) fs fs' := hr.mono (fun _ _ r => r.2)
+    rw [finalSymTab_reloc hsh]
+    cases finalSymTab fs t with
+    | ok r =>
+      simp only [Outcome.map_ok]
+      refine .ok ⟨hr, rfl, ?_, ?_⟩
+      · exact origin_reloc fs fs' .none (hr.mono (fun _ _ r => r.row_addr))
+      · exact name_reloc fs fs' none (hr.mono (fun _ _ r => r.row_operand))
+    | diag => exact .diag
+    | internal => exact .internal
+    | diverged => exact .diverged
+  | diag => exact .diag
+  | internal => exact .internal
+  | diverged => exact .diverged
+
+end modulo
 
 /-! ## the special case of the task statement: one ORG, on the first line -/
 
